@@ -1,6 +1,10 @@
 package redis
 
-import "github.com/mgtv-tech/redis-GunYu/pkg/digest"
+import (
+	"strings"
+
+	"github.com/mgtv-tech/redis-GunYu/pkg/digest"
+)
 
 type SlotOwner struct {
 	Master            string
@@ -10,15 +14,12 @@ type SlotOwner struct {
 }
 
 func KeyToSlot(key string) uint16 {
+	// HASH_SLOT: hash what is between the first '{' and the first '}' after
+	// it, when that is not empty; otherwise the whole key
 	hashtag := ""
-	for i, s := range key {
-		if s == '{' {
-			for k := i; k < len(key); k++ {
-				if key[k] == '}' {
-					hashtag = key[i+1 : k]
-					break
-				}
-			}
+	if i := strings.IndexByte(key, '{'); i >= 0 {
+		if k := strings.IndexByte(key[i+1:], '}'); k > 0 {
+			hashtag = key[i+1 : i+1+k]
 		}
 	}
 	if len(hashtag) > 0 {
